@@ -3,7 +3,7 @@ import json
 import os
 import vlib
 
-PROPS = ['Rangers.Props.C16', 'Rangers.Props.C16B', 'Rangers.Props.C16Qn', 'Rangers.Props.C16Gen', 'Rangers.Props.C16Curve', 'Rangers.Props.C16Window', 'Rangers.Props.C16Msg', 'Rangers.Props.C16Worker', 'Rangers.Props.C16Prime']
+PROPS = ['Rangers.Props.C16', 'Rangers.Props.C16B', 'Rangers.Props.C16Qn', 'Rangers.Props.C16Gen', 'Rangers.Props.C16Curve', 'Rangers.Props.C16Window', 'Rangers.Props.C16Msg', 'Rangers.Props.C16Worker', 'Rangers.Props.C16Prime', 'Rangers.Props.C16Flow']
 DRIVERS = ['C16']
 META = dict(
     level='proof',
@@ -48,9 +48,9 @@ def _classes(paths):
                 elif k in ('qn',):
                     w = x.split(' ')
                     c = w[0] + ' ' + (w[1] if len(w) > 1 and len(w[1]) < 3 else 'big')
-                elif k in ('verify', 'vbv', 'canon'):
+                elif k in ('verify', 'vbv', 'vbt', 'canon', 'cdelta'):
                     c = x
-                elif k in ('s2p', 'prove'):
+                elif k in ('s2p', 'prove', 'gp'):
                     c = x.split(' ')[0]
                 elif k in ('qnr', 'pp'):
                     c = x if len(x) < 3 else 'big'
@@ -85,6 +85,46 @@ def gen(ctx):
     return dict(ok=True, changed=changed, files=sorted(files))
 
 
+def _session(ctx, tag, args, timeout=600):
+    """One more correspondence stream with the harness binary the main stream has just built from the
+    working tree (vlib.correspond rebuilds on every call; three rebuilds cost ~30 s of the quick budget)."""
+    import shutil, time
+    res = dict(ok=False, ops=0, mismatches=0, first=[], errors=[], samples=[], distinct_nontrivial=0)
+    binp = os.path.join(vlib.HARNESS, 'bin', 'c16')
+    if not os.path.exists(binp):
+        res['errors'].append('harness binary missing (main stream did not build)')
+        return res
+    cwd = ctx.scratch('c16' + tag)
+    ops, obs, mod = (os.path.join(ctx.work, 'c16-%s.%s' % (tag, x)) for x in ('ops', 'obs', 'mod'))
+    for pth in (ops, obs, mod):
+        if os.path.exists(pth):
+            os.remove(pth)
+    t = time.time()
+    rc, so, se = vlib.run([binp, 'ops=' + ops, 'obs=' + obs, 'tier=' + ctx.tier] + list(args), cwd=cwd,
+                          env=dict(VERIF_SEED=str(ctx.seed), VERIF_TIER=ctx.tier, VERIF_DISABLE_NTP='1'), timeout=timeout)
+    res['harness_s'] = round(time.time() - t, 1)
+    shutil.rmtree(cwd, ignore_errors=True)
+    for line in so.split('\n'):
+        if line.startswith('STATS '):
+            try:
+                res['stats'] = json.loads(line[6:])
+            except Exception:
+                res['stats'] = line[6:]
+    if rc != 0:
+        res['errors'].append('harness exited %d: %s' % (rc, (se or so)[-800:]))
+    if not os.path.exists(ops):
+        return res
+    rc2, err2 = vlib.run_driver('C16', ops, mod, timeout=timeout * 3)
+    if rc2 != 0:
+        res['errors'].append('model driver exited %d: %s' % (rc2, err2[-400:]))
+    d = vlib.diff_streams(ops, obs, mod, canon)
+    res.update(ops=d['ops'], mismatches=d['mismatches'], first=d['first'], unmodelled=d['unmodelled'], bad_op=d['bad_op'])
+    res['distinct_nontrivial'] = len(set(open(ops, errors='replace').read().split('\n'))) - d['unmodelled'] - d['bad_op']
+    res['ok'] = (rc == 0 and rc2 == 0 and d['mismatches'] == 0 and d['ops'] > 0)
+    res['paths'] = dict(ops=ops, obs=obs, mod=mod)
+    return res
+
+
 def correspond(ctx):
     c = vlib.correspond(ctx, 'c16', 'C16', [], canon=canon, timeout=1500,
                         nontrivial=lambda o, x: True)
@@ -100,7 +140,7 @@ def correspond(ctx):
     # fork-configuration sessions: the qualification rule under the mainnet and robin schedules (their own
     # Proposal025Block, heights on both sides); the model takes the threshold from the op line
     for env in ('mainnet', 'robin'):
-        f = vlib.correspond(ctx, 'c16', 'C16', ['env=' + env, 'part=fork'], canon=canon, timeout=600)
+        f = _session(ctx, 'fork-' + env, ['env=' + env, 'part=fork'])
         f['name'] = 'c16-fork-' + env
         if f.get('paths'):
             st = f.get('stats') if isinstance(f.get('stats'), dict) else {}
